@@ -133,6 +133,28 @@ def _compute_hmac_bytes(hmac_key: bytes, cache_key: str, raw_bytes: bytes) -> st
     return hmac.new(hmac_key, msg, hashlib.sha256).hexdigest()
 
 
+def _raw_only_disk(diskcache: Any) -> type:
+    """A ``diskcache.Disk`` that never unpickles a row.
+
+    DiskCache stores only bytes (the payload) and str (its signature), which
+    diskcache keeps raw. A row in pickle mode was therefore not written by it,
+    and ``Disk.fetch`` would unpickle it inside ``Cache.get`` - before
+    ``DiskCache.get`` can authenticate anything. Such a row reads as a value
+    that is neither bytes nor str, which ``DiskCache.get`` evicts.
+    """
+
+    class _RawOnlyDisk(diskcache.Disk):
+        def fetch(self, mode: int, filename: Any, value: Any, read: bool) -> Any:
+            if mode == diskcache.core.MODE_PICKLE:
+                return _NOT_RAW
+            return super().fetch(mode, filename, value, read)
+
+    return _RawOnlyDisk
+
+
+_NOT_RAW = object()
+
+
 class DiskCache:
     """Persistent disk-based cache using diskcache.
 
@@ -164,6 +186,7 @@ class DiskCache:
             raise ImportError("diskcache is required for DiskCache. Install it with: pip install 'hypergraph[cache]'") from None
 
         expanded = os.path.expanduser(cache_dir)
+        kwargs.setdefault("disk", _raw_only_disk(diskcache))
         self._cache = diskcache.Cache(expanded, **kwargs)
         self._hmac_key = _load_or_create_hmac_key(expanded)
 
